@@ -551,6 +551,83 @@ func ruleResume(c *Ctx, r *Rule) {
 		r.Ob(hasMax && isMin, c.fnName(fn)+"|seek-min", cs.Pos(), "on resume the file is read from the MINIMUM of the saved per-stream offsets (so no stream's unfinished lines are skipped)")
 	}
 	r.Ob(found, "resume|seek-from-loaded", seek.Pos(), "a seek whose position is computed over the loaded stream offsets exists")
+	c.loadedOnlyInStartPhase(r)
+}
+
+// loadedOnlyInStartPhase: the table loaded from the offsets file describes the files of the previous
+// run; it is never pruned. A file that appears after the start phase is new even when its inode
+// number is in the table (inode reuse), so the loaded entry must not be applied to it: the mode value
+// under which the initialiser reads the table reaches it only while the provider is not started.
+func (c *Ctx) loadedOnlyInStartPhase(r *Rule) {
+	var reads []fieldAccess
+	for _, a := range c.fieldAccesses(fileInPkg, "jobProvider", "loadedOffsets") {
+		if !a.write && a.fn.Signature.Recv() != nil {
+			reads = append(reads, a)
+		}
+	}
+	n := 0
+	for _, a := range reads {
+		fn := a.fn
+		// the read is selected by parameter == constant
+		pi, kv := -1, int64(0)
+		for _, l := range c.unitGuards(a.in) {
+			if op, x, y, ok := cmpLit(l); ok && op == token.EQL {
+				if k, isK := constInt(y); isK {
+					if i := paramIndex(fn, stripConv(x)); i >= 0 {
+						pi, kv = i, k
+					}
+				}
+			}
+		}
+		if pi < 0 {
+			continue
+		}
+		// does this function apply the entry to the job's position (writes Job.offsets or seeks)?
+		applies := false
+		for _, w := range c.fieldAccesses(fileInPkg, "Job", "offsets") {
+			if w.write && w.fn == fn {
+				applies = true
+			}
+		}
+		if !applies {
+			continue
+		}
+		for _, cs := range c.sitesOf(fn) {
+			n++
+			r.Inst(1)
+			arg := cs.Common().Args[pi]
+			ok := true
+			why := ""
+			check := func(v ssa.Value, lits []lit) {
+				if k, isK := constInt(v); isK && k != kv {
+					return
+				}
+				for _, l := range lits {
+					if call, isCall := l.v.(*ssa.Call); isCall && !l.pol {
+						if f := call.Call.StaticCallee(); f != nil && f.Name() == "Load" && len(call.Call.Args) == 1 {
+							if o, fl, _, ok2 := fieldOf(call.Call.Args[0]); ok2 && isField(o, fl, fileInPkg, "jobProvider", "isStarted") {
+								return
+							}
+						}
+					}
+				}
+				ok = false
+				why = c.path(v)
+			}
+			if phi, isPhi := arg.(*ssa.Phi); isPhi {
+				fi := c.info(cs.Parent())
+				c.guards(cs.Parent())
+				for i, e := range phi.Edges {
+					check(e, append(unitLits(c.edgeFacts(fi, phi.Block().Preds[i], phi.Block())), c.unitGuards(cs)...))
+				}
+			} else {
+				check(arg, c.unitGuards(cs))
+			}
+			r.Ob(ok, fmt.Sprintf("%s|loaded-entry-only-in-start-phase", c.fnName(cs.Parent())), cs.Pos(),
+				"the initialiser may apply the loaded offsets (mode "+fmt.Sprint(kv)+") only to a file found while the provider is not started; a file that appears later is new even if its inode number is in the loaded table"+ifs(why != "", "; mode value "+why+" reaches it after the start"))
+		}
+	}
+	r.Ob(n >= 1, "resume|initialiser-call-sites", token.NoPos, fmt.Sprintf("call sites of the function that applies the loaded table to a job: %d", n))
 }
 
 // onlyBeforeStart: the instruction is control-dependent on jobProvider.isStarted.Load() == false,
